@@ -220,7 +220,7 @@ def fhSt (name : String) (s2 : Nat) (norm : Bool) (h : FH) : String :=
   s!"{name}={fhText h}|{b2s (FH.isValid s2 norm h)}"
 
 def dhSt (name : String) (s2 : Nat) (d : DH) : String :=
-  s!"{name}={fhText d.norm}|{fhText (DH.toRawForm s2 d)}|{b2s (DH.isValid s2 d)}|{hx d.rle1}|{hx d.rle2}"
+  s!"{name}={fhText d.norm}|{fhText (DH.toRawForm s2 d)}|{b2s (DH.isValid s2 d)}|{b2s (DH.freshEq s2 d)}"
 
 def tSt (t : Target) : String := s!"T={t.log.toNat}|{t.len1.toNat}|{t.len2.toNat}|{b2s t.isValid}"
 def pSt (p : PA) : String := s!"P={p.len.toNat}|{b2s p.isValid}|{b2s p.isValidAndNormalized}"
